@@ -25,7 +25,11 @@ def overlap(rng, d1, d2):
             d1["g"].append(r)
         if set(r[0]) <= allowed2:
             tw = c08.first_coefficient_twin(r)
-            if tw and how < 0.2:
+            if how >= 0.85 and set(r[0]) <= allowed1 and r in d1["g"]:
+                base, twin = c08.near_twin(rng, r)        # one coefficient off by 10^-5 of itself: a different guarantee
+                d1["g"][d1["g"].index(r)] = base
+                d2["g"].append(twin)
+            elif tw and how < 0.2:
                 d2["g"].append(tw)         # same variables, same last coefficient and bound, another first coefficient: NOT the same guarantee
             else:
                 d2["g"].append(r if how < 0.4 else (c08.scaled(r, 2) if how < 0.7 else c08.weakened(r, 1)))
